@@ -952,6 +952,13 @@ fn gen_malformed(rng: &mut Rng, which: &'static str) -> Case {
         c.n_v = c.n_v.map(|_| nv);
     }
     c.kind = which;
+    // the other spellings were computed for the well-formed values; the mutations below change values
+    for r in c.edges.iter_mut() {
+        r.alt = None;
+    }
+    for r in c.vertices.iter_mut() {
+        r.alt = None;
+    }
     let ne = c.edges.len();
     let nv = c.vertices.len();
     match which {
